@@ -46,8 +46,8 @@ theorem IdAux.perm_insertBy {α : Type} (lt : α → α → Bool) (x : α) (l : 
   | cons b l ih =>
     simp only [insertBy]
     split
-    · exact List.Perm.refl _
     · exact ((List.Perm.cons b ih).trans (List.Perm.swap x b l))
+    · exact List.Perm.refl _
 
 /-- insertion sort by a key keeps the list sorted by that key -/
 theorem sortBy_key_sorted (k : Name → Nat) (l : List Name) :
@@ -61,15 +61,8 @@ theorem sortBy_key_sorted (k : Name → Nat) (l : List Name) :
       simp only [insertBy]
       have hy := List.pairwise_cons.mp hl
       split
-      · rename_i hxy
-        have hxy' : k x < k y := by simpa using hxy
-        refine List.pairwise_cons.mpr ⟨?_, hl⟩
-        intro b hb
-        rcases List.mem_cons.mp hb with rfl | hb
-        · omega
-        · have := hy.1 b hb; omega
-      · rename_i hxy
-        have hxy' : ¬ k x < k y := by simpa using hxy
+      · rename_i hyx
+        have hyx' : k y < k x := by simpa using hyx
         refine List.pairwise_cons.mpr ⟨?_, ih hy.2⟩
         intro b hb
         have hmem : b = x ∨ b ∈ ys := by
@@ -78,6 +71,13 @@ theorem sortBy_key_sorted (k : Name → Nat) (l : List Name) :
         rcases hmem with rfl | hb
         · omega
         · exact hy.1 b hb
+      · rename_i hyx
+        have hyx' : ¬ k y < k x := by simpa using hyx
+        refine List.pairwise_cons.mpr ⟨?_, hl⟩
+        intro b hb
+        rcases List.mem_cons.mp hb with rfl | hb
+        · omega
+        · have := hy.1 b hb; omega
   induction l with
   | nil => simp [sortBy]
   | cons b l ih =>
